@@ -24,6 +24,8 @@ type Obligation struct {
 	Props  []string
 	Pos    string
 	Src    string // contract clause text or source text
+	Blk    int
+	Text   string // SMT-LIB text (generated before the parallel solving stage)
 	Expect string // "unsat" (default) or "sat" for cover/canary obligations
 	vc     *VC
 	// filled by the solver stage
@@ -33,6 +35,7 @@ type Obligation struct {
 type Fact struct {
 	Term   string
 	Origin string
+	Blk    int // top-frame block in which the fact arose (-1: global)
 }
 
 type unsupported struct{ why string }
@@ -67,12 +70,15 @@ type VC struct {
 	globalRefs  []string
 	errSentinels []string
 	boxed map[string]bool
+	curBlk int
+	suffix string // "@as:<Interface>" when verifying against an interface-method contract
+	reach  map[[2]int]bool // forward reachability between top-frame blocks
 }
 
 func newVC(P *Program, SS *SpecSet, G *Globals, fn *ssa.Function, con *Contract) *VC {
 	return &VC{P: P, S: newSorts(P), SS: SS, G: G, fn: fn, con: con,
 		strlits: map[string]string{}, declared: map[string]bool{}, ghostUsed: map[string]bool{},
-		usedAssumptions: map[string]bool{}, labels: map[string]int{}}
+		usedAssumptions: map[string]bool{}, labels: map[string]int{}, curBlk: -1}
 }
 
 func (vc *VC) fresh(hint string) string {
@@ -126,7 +132,7 @@ func (vc *VC) assume(cond, term, origin string) {
 	if cond != "true" && cond != "" {
 		term = "(=> " + cond + " " + term + ")"
 	}
-	vc.facts = append(vc.facts, Fact{term, origin})
+	vc.facts = append(vc.facts, Fact{term, origin, vc.curBlk})
 }
 
 func (vc *VC) oblige(kind, label, cond, goal, pos, src string, props []string) *Obligation {
@@ -136,8 +142,8 @@ func (vc *VC) oblige(kind, label, cond, goal, pos, src string, props []string) *
 	if k > 0 {
 		label = fmt.Sprintf("%s#%d", label, k)
 	}
-	o := &Obligation{Fn: canonName(vc.fn), Kind: kind, Label: label, Cond: cond, Goal: goal,
-		NDecl: len(vc.decls), NFact: len(vc.facts), Props: props, Pos: pos, Src: src, vc: vc, Expect: "unsat"}
+	o := &Obligation{Fn: canonName(vc.fn) + vc.suffix, Kind: kind, Label: label, Cond: cond, Goal: goal,
+		NDecl: len(vc.decls), NFact: len(vc.facts), Blk: vc.curBlk, Props: props, Pos: pos, Src: src, vc: vc, Expect: "unsat"}
 	o.Name = o.Fn + "/" + kind
 	if label != "" {
 		o.Name += "/" + label
@@ -429,6 +435,8 @@ const basePrelude = `(define-fun nil_slice () Slice (mk_slice 0 0 0 0))
 (declare-fun bytes_of_str (Str) Bytes)
 (declare-fun str_of_bytes (Bytes) Str)
 (declare-fun bitop (Int Int Int) Int)
+(declare-fun ix (Int Int) Int)
+(assert (forall ((o Int) (j Int)) (! (= (ix o j) (+ o j)) :pattern ((ix o j)))))
 (define-fun tdiv ((a Int) (b Int)) Int (ite (>= a 0) (ite (> b 0) (div a b) (- (div a (- b)))) (ite (> b 0) (- (div (- a) b)) (div (- a) (- b)))))
 (define-fun tmod ((a Int) (b Int)) Int (- a (* b (tdiv a b))))
 `
@@ -461,6 +469,9 @@ func (o *Obligation) smt(timeoutMs int) string {
 		b.WriteString(d + "\n")
 	}
 	for _, f := range vc.facts[:o.NFact] {
+		if !vc.relevant(f, o) {
+			continue
+		}
 		b.WriteString("(assert " + f.Term + ") ; " + f.Origin + "\n")
 	}
 	if o.Expect == "sat" {
